@@ -146,7 +146,10 @@ fn families(run: &mut Run, tier: Tier, prop: &str) {
                 let mut o = observed.lock().unwrap();
                 for b in &w.blocks {
                     if b.kind == 2 {
-                        o.0.insert(b.lits_regen);
+                        // only Huffman-coded sections count: a raw section at the boundary would make the family vacuous
+                        if b.lits_type.map_or(false, |t| t >= 2) {
+                            o.0.insert(b.lits_regen);
+                        }
                         o.1.insert(b.n_seqs);
                     }
                 }
@@ -156,8 +159,15 @@ fn families(run: &mut Run, tier: Tier, prop: &str) {
     merge(run, prop, "threshold_directed_families", accs, false);
     let o = observed.lock().unwrap();
     let hit = |r: std::ops::RangeInclusive<usize>| o.0.iter().filter(|x| r.contains(x)).cloned().collect::<Vec<_>>();
-    run.set("literal_counts_observed_1018_to_1030", json!(hit(1018..=1030)));
-    run.set("literal_counts_observed_16378_to_16390", json!(hit(16378..=16390)));
+    run.set("huffman_literal_counts_observed_1018_to_1030", json!(hit(1018..=1030)));
+    run.set("huffman_literal_counts_observed_16378_to_16390", json!(hit(16378..=16390)));
+    // (the compressor Huffman-codes literals only above 1024 bytes)
+    for must in [1025usize, 1026, 16383, 16384, 16385] {
+        if !o.0.contains(&must) {
+            println!("C02 WARNING: no block with exactly {must} Huffman-coded literals was produced; the size-format boundary family is vacuous there");
+            run.set(&format!("vacuous_boundary_{must}"), true);
+        }
+    }
     run.set("max_sequences_in_a_block_observed", o.1.iter().max().cloned().unwrap_or(0) as u64);
     let _ = tier;
 }
